@@ -59,12 +59,12 @@ type Case struct {
 	// source log
 	Sizes      []int // tree size of the n-th genuine STH handed out (the last one repeats); non-decreasing
 	Seed       int
-	DupMod     int  // > 0: the log repeats its first DupMod certificates (only with the leaf-index identity)
+	DupMod     int  // > 0: the log repeats its first DupMod certificates (index i carries the certificate of i % DupMod)
 	SameTS     bool // repeated certificates also repeat the timestamp: byte-identical leaves
 	BigAt      int  // BigN > 0: the entries [BigAt, BigAt+BigN) carry about BigKB KiB of extra_data each
 	BigN       int
 	BigKB      int
-	SrcKey     int  // signing key of the source: 0 p256, 1 rsa2048, 2 p256 (another), 3 rsa3072
+	SrcKey     int // signing key of the source: 0 p256, 1 rsa2048, 2 p256 (another), 3 rsa3072
 	Plans      []SrcPlan
 	STHFaults  []int // fault kind of the n-th get-sth request (over all passes)
 	ConsFaults []int // fault kind of the n-th get-sth-consistency request
@@ -72,12 +72,14 @@ type Case struct {
 	ConsLatMs  int64
 
 	// destination
-	DstKind       int
-	DstLen        int // resolved by normalise
-	ForkAt        int
-	DstPlans      []DstPlan
-	DstLatMs      int64 // AddSequencedLeaves for a batch starting at s takes (s % 3) * DstLatMs
-	IntegrateMask uint  // bit n%16: the sequencer integrates just before the n-th GetLatestSignedLogRoot
+	DstKind         int
+	DstLen          int // resolved by normalise
+	ForkAt          int
+	DstPlans        []DstPlan
+	LongQuota       int   // a long quota outage: the first LongQuotaStarts distinct batch starts the destination sees are
+	LongQuotaStarts int   // answered ResourceExhausted LongQuota times each before their plan applies (20-45 replies: 20 min - 1.5 h of back-off)
+	DstLatMs        int64 // AddSequencedLeaves for a batch starting at s takes (s % 3) * DstLatMs
+	IntegrateMask   uint  // bit n%16: the sequencer integrates just before the n-th GetLatestSignedLogRoot
 
 	// configuration
 	Batch        int
@@ -150,9 +152,6 @@ func (c *Case) normalise() {
 		}
 	}
 	clamp(&c.IDFunc, 1, 2)
-	if c.IDFunc == 1 {
-		c.DupMod, c.SameTS = 0, false
-	}
 	if c.DupMod < 0 {
 		c.DupMod = 0
 	}
@@ -223,8 +222,17 @@ func (c *Case) normalise() {
 		c.DstLen = 1 + c.DstLen%(s0+3)
 		c.ForkAt %= c.DstLen
 	}
+	if c.IDFunc == 1 && c.DupMod > 0 && (c.DstKind == dstPrefix || c.DstKind == dstComplete) && c.DstLen > c.DupMod {
+		// a tree keyed by SHA256_CERT_DATA cannot have held a repeated certificate in the first place
+		c.DstKind, c.DstLen = dstPrefix, c.DupMod
+	}
 	if c.DstLen == 0 {
 		c.DstKind = dstEmpty
+	}
+	clamp(&c.LongQuota, 0, 60)
+	clamp(&c.LongQuotaStarts, 0, 3)
+	if c.LongQuota == 0 || c.LongQuotaStarts == 0 {
+		c.LongQuota, c.LongQuotaStarts = 0, 0
 	}
 	if c.DstLatMs < 0 {
 		c.DstLatMs = 0
@@ -370,7 +378,7 @@ func genCase(t *rapid.T, elect bool) Case {
 	}
 	c.Seed = rapid.IntRange(0, poolSize-1).Draw(t, "seed")
 	c.IDFunc = 1 + weighted(t, "idFunc", 1, 1)
-	if c.IDFunc == 2 && weighted(t, "dups", 1, 1) == 1 {
+	if c.IDFunc == 2 && weighted(t, "dups", 1, 1) == 1 || c.IDFunc == 1 && weighted(t, "dupsCertData", 3, 1) == 1 {
 		c.DupMod = rapid.IntRange(1, 12).Draw(t, "dupMod")
 		c.SameTS = rapid.Bool().Draw(t, "sameTS")
 	}
@@ -448,6 +456,10 @@ func genCase(t *rapid.T, elect bool) Case {
 			p.FatalN = 1
 		}
 		c.DstPlans = append(c.DstPlans, p)
+	}
+	if weighted(t, "longQuota", 11, 1) == 1 {
+		c.LongQuota = rapid.IntRange(20, 45).Draw(t, "longQuotaN")
+		c.LongQuotaStarts = rapid.IntRange(1, 3).Draw(t, "longQuotaStarts")
 	}
 	if weighted(t, "dstLat", 1, 1) == 1 {
 		c.DstLatMs = int64(rapid.IntRange(1, 400).Draw(t, "dstLatMs"))
